@@ -17,6 +17,7 @@ long mt_total_runnable(void) {
   return s;
 }
 int mt_all_queues_empty(void) { return mt_total_runnable() == 0; }
+int mt_queue_len(int rank) { if (rank < 0 || rank >= g_envs_sz) return 0; int d = g_envs[rank].runnable_q.top - g_envs[rank].runnable_q.base; return d > 0 ? d : 0; }
 
 void mt_decode_engine(mt_case * c, mt_engine_cfg * e, int maxW) {
   static const int tails[8] = { 0, 0, 4, 16, 48, 96, 160, 255 };
@@ -46,6 +47,17 @@ static void qop_check(void * q, int kind) {
   }
 }
 extern void (*volatile myth_verif_qop_fn)(void *, int) __attribute__((weak));
+/* the per-worker free lists of thread records and stacks are unsynchronised: they may only be touched by a
+   thread that is running on that worker */
+void mt_freelist_owner_check(int rank, int is_free, int kind) {
+  int me = mv_me();
+  if (me < 0 || !mv_enabled() || rank < 0) return;
+  if (rank != me) mt_fail("the unsynchronised per-worker free list of %s of worker %d was %s by a thread running on worker %d", kind == MVA_DESC ? "thread records" : "stacks", rank, is_free ? "pushed to" : "popped from", me);
+}
+static void own_alloc(int kind, void * ptr, size_t size, int rank) { (void)ptr; (void)size; mt_freelist_owner_check(rank, 0, kind); }
+static void own_free(int kind, void * ptr, size_t size, int rank) { (void)ptr; (void)size; mt_freelist_owner_check(rank, 1, kind); }
+extern void (*volatile myth_verif_alloc_fn)(int, void *, size_t, int) __attribute__((weak));
+extern void (*volatile myth_verif_free_fn)(int, void *, size_t, int) __attribute__((weak));
 
 void mt_lib_start(mt_case * c, mt_engine_cfg * e, size_t def_stack) {
   myth_globalattr_t a;
@@ -53,6 +65,13 @@ void mt_lib_start(mt_case * c, mt_engine_cfg * e, size_t def_stack) {
   myth_globalattr_init(&a);
   myth_globalattr_set_n_workers(&a, (size_t)e->W);
   myth_globalattr_set_bind_workers(&a, 0);
+  if (!def_stack && c->cfg.n > 3) {
+    /* scenarios that do not depend on the default stack size get a generated one: mostly the library default,
+       otherwise sizes that are not page multiples, among them sizes that are 8 mod 16 */
+    static const size_t ds[16] = { 0, 0, 0, 0, 0, 0, 0, 0, 0, 131080, 65544, 200008, 98328, 100000, 70000, 262144 };
+    def_stack = ds[c->cfg.p[3] & 15];
+    if (def_stack) { mt_desc("default stack size %zu\n", def_stack); mt_hash_u(def_stack); }
+  }
   if (def_stack) myth_globalattr_set_stacksize(&a, def_stack);
   myth_init_ex(&a);
   memset(&g_cfg, 0, sizeof g_cfg);
@@ -65,6 +84,7 @@ void mt_lib_start(mt_case * c, mt_engine_cfg * e, size_t def_stack) {
   g_cfg.noise_level = 40;
   g_cfg.burst_id = e->burst_id; g_cfg.burst_len = e->burst_len; memcpy(g_cfg.burst_ids, e->burst_ids, sizeof g_cfg.burst_ids);
   if (&myth_verif_qop_fn && e->mode == MV_CONTROLLED) myth_verif_qop_fn = qop_check;
+  if (&myth_verif_alloc_fn && !myth_verif_alloc_fn) { myth_verif_alloc_fn = own_alloc; myth_verif_free_fn = own_free; }   /* the ledger, where installed, runs the same check */
   if (e->burst_len) mt_desc("engine: status-polling loops poll %ld times in place before the token moves on\n", e->burst_len);
   mv_set_quiescent_fn(mt_all_queues_empty);
   mt_desc("engine: W=%d mode=%s tail_preempt=%d/256 sched_bytes=%zu seed=%u\n", e->W,
